@@ -78,6 +78,11 @@ func (b *CombinationColexIterator) Next() bool {
 		return b.k == -1
 	}
 
+	if b.k > b.n {
+		//There are no subsets of size k.
+		return false
+	}
+
 	if b.j >= b.k-1 {
 		if b.data[b.k-1] == b.n-1 {
 			return false
